@@ -239,14 +239,14 @@ func Specs() map[string]*PropSpec {
 	m["C04"] = &PropSpec{
 		ID: "C04", Pkgs: []string{"./precompiles/staking", "./precompiles/distribution", "./precompiles/ics20"},
 		Quick: []Inst{ps("VerifC04_Identity"), ps("VerifC04_Allowance", "steps", "3"), {Pkg: "precompiles/distribution", Fn: "VerifC04_Distribution", Params: pm(), EngineReplay: true},
-			{Pkg: "precompiles/ics20", Fn: "VerifC04_Ics20", Params: pm("checkSupply", "0"), EngineReplay: true}},
-		Thorough: []Inst{ps("VerifC04_Identity"), ps("VerifC04_Allowance", "steps", "5"), {Pkg: "precompiles/distribution", Fn: "VerifC04_Distribution", Params: pm(), EngineReplay: true},
+			{Pkg: "precompiles/ics20", Fn: "VerifC04_Ics20", Params: pm("checkSupply", "0"), EngineReplay: true}, {Pkg: "precompiles/ics20", Fn: "VerifC04_Ics20Allowance", Params: pm("steps", "3"), EngineReplay: true}},
+		Thorough: []Inst{{Pkg: "precompiles/ics20", Fn: "VerifC04_Ics20Allowance", Params: pm("steps", "4"), EngineReplay: true}, ps("VerifC04_Identity"), ps("VerifC04_Allowance", "steps", "5"), {Pkg: "precompiles/distribution", Fn: "VerifC04_Distribution", Params: pm(), EngineReplay: true},
 			{Pkg: "precompiles/ics20", Fn: "VerifC04_Ics20", Params: pm("checkSupply", "0"), EngineReplay: true}},
 		Bounds: map[string]string{
-			"quick":    "staking precompile delegate / undelegate for every (signer, caller in {signer, contract}, named account in 3 addresses) relationship x grant state {absent, wrong type, limited, unlimited, other message type} x amount < 2^128 x module accepts/refuses; sequences of <= 3 operations from {approve(x), approve(unlimited), increase(x), decrease(x), revoke, spend(x) by the contract} with symbolic amounts < 2^200; distribution withdrawDelegatorRewards / claimRewards / withdrawValidatorCommission / setWithdrawAddress for every (caller, named account) relationship; ICS-20 transfer for every (caller, sender) relationship x channel {granted, existing but not granted, absent} x grant state {absent, wrong type, limited, unlimited, limited with an allow list excluding the receiver} x amount < 2^100 x module accepts/refuses, with ibc-go's own TransferAuthorization.Accept",
+			"quick":    "staking precompile delegate / undelegate for every (signer, caller in {signer, contract}, named account in 3 addresses) relationship x grant state {absent, wrong type, limited, unlimited, other message type} x amount < 2^128 x module accepts/refuses; sequences of <= 3 operations from {approve(x), approve(unlimited), increase(x), decrease(x), revoke, spend(x) by the contract} with symbolic amounts < 2^200; distribution withdrawDelegatorRewards / claimRewards / withdrawValidatorCommission / setWithdrawAddress for every (caller, named account) relationship; ICS-20 transfer for every (caller, sender) relationship x channel {granted, existing but not granted, absent} x grant state {absent, wrong type, limited, unlimited, limited with an allow list excluding the receiver} x amount < 2^100 x module accepts/refuses, with ibc-go's own TransferAuthorization.Accept; sequences of <= 3 ICS-20 increaseAllowance / decreaseAllowance / spend operations over a grant with two channel allocations, each channel's limit compared with a running model after every step",
 			"thorough": "sequences of <= 5 operations",
 		},
-		Outside:     []string{"staking redelegate / cancelUnbonding / createValidator (same pattern; not harnessed)", "ICS-20 approve / increase / decrease / revoke (only the spend side of transfer grants is decided)", "the ERC-20 precompile's approve/transferFrom (not registered in AvailablePrecompiles)", "expiry of grants (the SDK treats an expired grant as absent: contract of the grant-table stub)"},
+		Outside:     []string{"staking redelegate / cancelUnbonding / createValidator (same pattern; not harnessed)", "ICS-20 approve / revoke and grants with several denominations per allocation (increase / decrease / spend over two channels are decided)", "the ERC-20 precompile's approve/transferFrom (not registered in AvailablePrecompiles)", "expiry of grants (the SDK treats an expired grant as absent: contract of the grant-table stub)"},
 		Assumptions: []string{"authz keeper replaced by a grant table (Get/Save/DeleteGrant contract of the SDK keeper)", "staking message server replaced by a recorder that accepts or refuses", "event emission and ABI packing replaced by no-ops", "StakeAuthorization.Accept / NewStakeAuthorization / ValidateBasic are the SDK's own code, executed", "counterexamples confirmed by concrete re-execution in the SSA interpreter (concrete SDK keepers cannot be stubbed natively)"},
 		Stubs:       []string{"c04 grant table", "c04Srv", "c04Ledger"},
 	}
